@@ -76,7 +76,7 @@ func c12GenRule(t *verifrt.Tape, family []string, id int, depth int, allowDyn bo
 	if t.Draw(3) == 0 {
 		r.Trans = append(r.Trans, pick(t, c12Trans))
 	}
-	if allowDyn && t.Draw(6) == 0 {
+	if allowDyn && t.Draw(3) == 0 {
 		// multiMatch bypasses the cache; only the differential oracle applies
 		r.Multi = true
 		r.Dynamic = true
@@ -149,7 +149,25 @@ func c12Gen(t *verifrt.Tape) *c12Scenario {
 	// values of the repeated name move by exactly one position between rules
 	shift := chain != nil && t.Draw(2) == 0
 	base := pick(t, []string{"ARGS_GET", "ARGS", "ARGS_GET"})
+	// multi-seed mode (a tenth of the other runs): the first rule walks the whole
+	// family with multiMatch, the others are plain rules on the same target with
+	// prefixes of the family - whatever the multiMatch path leaves behind must not
+	// be taken for a plain rule's value; values are small byte soups on which
+	// transformation steps behave unusually
+	multiSeed := chain == nil && t.Draw(10) == 0
 	for i := 0; i < n; i++ {
+		if multiSeed {
+			r := c12Rule{ID: 201 + i, Targets: base}
+			if i == 0 {
+				r.Multi, r.Dynamic = true, true
+				r.Trans = append(r.Trans, family...)
+				sc.Dynamic = true
+			} else {
+				r.Trans = append(r.Trans, family[:1+t.Draw(len(family))]...)
+			}
+			sc.Rules = append(sc.Rules, r)
+			continue
+		}
 		if shift {
 			r := c12Rule{ID: 201 + i, Targets: base}
 			if t.Draw(2) == 0 {
@@ -176,9 +194,22 @@ func c12Gen(t *verifrt.Tape) *c12Scenario {
 		// chains x -> T(x) -> T(T(x)) present side by side
 		"%252541b", "%2541b", "%41b", "Ab", "ab", "  ab ", " ab", "343134", "3431", "41",
 		// equal-length pairs that collide under weak fingerprints (byte sum, FNV-1a 32)
-		"ba", "XmBSkAwk", "dnMDOHDF", "bc", "ad"}
+		"ba", "XmBSkAwk", "dnMDOHDF", "bc", "ad",
+		// inputs on which a transformation step changes the value in an unusual
+		// way (NUL entity, invalid UTF-8, comment opener without end)
+		"a%26%230b", "a%26%230;b", "x%ffy", "x%ff y", "a/*b", "%26lt;b"}
 	if chain != nil {
 		vals = chain.vals
+	}
+	if multiSeed {
+		vals = []string{"a%26%230b", "a%26%230;b", "x%ffy", "x%ff y", "a/*b", "%26lt;b", "%26%23x0;", "a%00b", "%c3%28", "a%26%2365b", "a%26amp", " %ff "}
+		for i := 0; i < 6; i++ {
+			var sb strings.Builder
+			for j, m := 0, 1+t.Draw(6); j < m; j++ {
+				sb.WriteString(pick(t, []string{"%26", "%23", "0", ";", "x", "%ff", "%00", "+", "/", "*", "<", "-", "%25", "A", "%c3", "%a0"}))
+			}
+			vals = append(vals, sb.String())
+		}
 	}
 	q := func() string {
 		var ps []string
